@@ -51,10 +51,17 @@ def recip_value(r, binding, dest=None):
     return {'own': OWN[binding][0], 'entity': SP_X, 'foreign': 'https://evil.example/acs', None: None}[r]
 
 
+SPELL_AS_STRING = [False]
+
+
 def sp_for(allow, regex, unsigned=False):
     k = (allow, regex) if not unsigned else (allow, regex, 'unsigned')
+    if SPELL_AS_STRING[0]:
+        k = k + ('as-string',)
     if k not in _sp:
-        opts = {'allow_unsolicited': allow}
+        opts = {'allow_unsolicited': allow if not unsigned or not isinstance(allow, bool) else allow}
+        if SPELL_AS_STRING[0]:
+            opts['allow_unsolicited'] = 'true' if allow else 'false'      # the documented string spellings of the option
         if unsigned:
             opts['want_response_signed'] = False     # over SOAP the documents are unsigned (the reader re-serialises the body)
         if regex:
@@ -79,6 +86,11 @@ def docs(thorough):
                     continue
                 out.append(dict(binding=binding, enc=enc, irt=irt, scd=[sirt], dest=d, aud=a, recip=r))
             if binding == BINDING_HTTP_POST:
+                # the option given as the strings "true" / "false"; Conditions without NotBefore / NotOnOrAfter
+                for irt, sirt in itertools.product(IRT, SCD_IRT):
+                    out.append(dict(binding=binding, enc=enc, irt=irt, scd=[sirt], dest='own', aud='me', recip='own', as_string=True))
+                for a in AUD:
+                    out.append(dict(binding=binding, enc=enc, irt='req1', scd=['req1'], dest='own', aud=a, recip='own', notimes=True))
                 for adv in ('me', 'other', 'me|other', 'substring', 'none'):
                     out.append(dict(binding=binding, enc=enc, irt='req1', scd=['req1'], dest='own', aud='me', recip='own', advice=adv))
             if not enc and binding == BINDING_HTTP_POST:
@@ -115,6 +127,8 @@ def build(doc):
         else:
             confs.append(forge.confirmation(now, irt=s, recipient=recip_value(doc['recip'], b, doc['dest'])))
     a = dict(confirmations=confs, audiences=AUD[doc['aud']])
+    if doc.get('notimes'):
+        a.update(cond_nb=None, cond_nooa=None)        # Conditions carrying nothing but the audience restrictions
     if doc.get('advice'):
         # an assertion in the Advice with its own audience restriction; its attribute must not be honoured unless it lists me
         a['advice'] = forge.assertion(now, aid='ADV1', authn=False, audiences=AUD[doc['advice']], attrs=(('role', (ADVICE_MARK,)),))
@@ -151,6 +165,14 @@ def required_reject(doc, allow, conv, regex):
 
 
 def evaluate(doc):
+    SPELL_AS_STRING[0] = bool(doc.get('as_string'))
+    try:
+        return _evaluate(doc)
+    finally:
+        SPELL_AS_STRING[0] = False
+
+
+def _evaluate(doc):
     env.Clock.set(env.BASE)
     xml = build(doc)
     out = []
@@ -202,7 +224,7 @@ def run(ctx):
             for y in o['why']:
                 key = {'kind': y, 'allow_unsolicited': o['allow'], 'conv_info': o['conv'], 'regex': o['regex'], 'enc': doc['enc'],
                        'binding': doc['binding'].rsplit(':', 1)[1], 'irt': doc['irt'], 'scd': doc['scd'], 'dest': doc['dest'], 'stored': doc.get('ovals', 'urls'),
-                       'aud': doc['aud'], 'advice_aud': doc.get('advice'), 'recip': doc['recip'], 'primed_by': (doc.get('prime') or '').rsplit(':', 1)[-1] or None}
+                       'aud': doc['aud'], 'advice_aud': doc.get('advice'), 'option_as_string': bool(doc.get('as_string')), 'conditions_without_times': bool(doc.get('notimes')), 'recip': doc['recip'], 'primed_by': (doc.get('prime') or '').rsplit(':', 1)[-1] or None}
                 ctx.violation(key, {})
             if o['came_from']:
                 ctx.violation({'kind': o['came_from'], 'allow_unsolicited': o['allow'], 'irt': doc['irt'], 'scd': doc['scd'],
@@ -227,7 +249,7 @@ def replay(ctx, w):
     TMP[0] = ctx.tmp
     b = BNAME[w['binding']]
     doc = dict(binding=b, enc=w['enc'], irt=w['irt'], scd=w['scd'], dest=w['dest'], aud=w['aud'], recip=w['recip'], ovals=w.get('stored', 'urls'),
-               advice=w.get('advice_aud'))
+               advice=w.get('advice_aud'), as_string=w.get('option_as_string'), notimes=w.get('conditions_without_times'))
     if w.get('primed_by'):
         doc['prime'] = BNAME[w['primed_by']]
     outs = evaluate(doc)
